@@ -94,12 +94,36 @@ func findHoles(v reflect.Value, path string, depth int) string {
 
 // checkTotal is the C08 oracle. class: accepted | lex | parse | gen | other.
 func checkTotal(c SrcCase) (sig, what, class string) {
+	sig, what, class = checkTotalOnce(c)
+	if sig != "" {
+		return
+	}
+	// "returns exactly one of (program, error)" holds for every call, also the
+	// second one on the same text: the verdict must be the same
+	sig2, what2, class2 := checkTotalOnce(c)
+	if sig2 != "" {
+		return sig2, "second Compile of the same source: " + what2, class2
+	}
+	if class2 != class {
+		return "verdict-changes", fmt.Sprintf("Compile(%s): first call %s, second call on the same text %s", clipSrc(c.Src), class, class2), class
+	}
+	return
+}
+
+func clipSrc(s string) string {
+	if len(s) > 300 {
+		return fmt.Sprintf("%q...(%d bytes)", s[:300], len(s))
+	}
+	return fmt.Sprintf("%q", s)
+}
+
+func checkTotalOnce(c SrcCase) (sig, what, class string) {
 	v, err, p := CompileSafe(c.Src)
 	if p != nil {
-		return p.Sig(), fmt.Sprintf("Compile(%q) panicked: %s", c.Src, p.Sig()), ""
+		return p.Sig(), fmt.Sprintf("Compile(%s) panicked: %s", clipSrc(c.Src), p.Sig()), ""
 	}
 	if (v == nil) == (err == nil) {
-		return "program-and-error", fmt.Sprintf("Compile(%q) returned program=%v error=%v: exactly one must be non-nil", c.Src, v != nil, err), ""
+		return "program-and-error", fmt.Sprintf("Compile(%s) returned program=%v error=%v: exactly one must be non-nil", clipSrc(c.Src), v != nil, err), ""
 	}
 	if err != nil {
 		var msg string
@@ -248,7 +272,42 @@ func TestC08Corpus(t *testing.T) {
 }
 
 func genC08Input(t *rapid.T) (src string, origin string) {
-	switch rapid.SampledFrom([]string{"valid", "prefix", "prefix", "tokmut", "tokmut", "tokmut", "soup", "soup", "bytes", "regex", "regex", "regexprefix", "layout", "unicode", "unicode", "deepnest"}).Draw(t, "origin") {
+	switch rapid.SampledFrom([]string{"valid", "prefix", "prefix", "tokmut", "tokmut", "tokmut", "soup", "soup", "bytes", "regex", "regex", "regexprefix", "layout", "unicode", "unicode", "deepnest", "long"}).Draw(t, "origin") {
+	case "long":
+		// sources of 4..9 kB: a valid program, one of its token mutants or a prefix,
+		// made long by a separator of thousands of bytes in a drawn gap, or by many
+		// commands (tokens then fall on every offset, also on 4096 and 8192)
+		p, _, _ := GenFullProgram(t, FullOpts{Wide: true, Transforms: true, MaxCmds: 2})
+		toks := p.Tokens()
+		var src string
+		if rapid.Bool().Draw(t, "longsep") {
+			seps := make([]string, len(toks)+1)
+			for j := range seps {
+				seps[j] = " "
+			}
+			seps[0], seps[len(toks)] = "", ""
+			gap := rapid.IntRange(0, len(toks)).Draw(t, "longgap")
+			n := rapid.SampledFrom([]int{4000, 4090, 4096, 4100, 4200, 8150, 8200}).Draw(t, "longn") - rapid.IntRange(0, 60).Draw(t, "longjit")
+			seps[gap] = longSep(rapid.SampledFrom(longSepKinds).Draw(t, "longkind"), n)
+			src = Layout(toks, seps)
+		} else {
+			one := strings.Join(toks, " ")
+			if len(one) < 8 || loopProduct(one) > 1 || strings.Contains(one, "set ") {
+				// repeated bounds would multiply in the K3 exclusion, repeated definitions clash
+				one = rapid.SampledFrom([]string{"find all 'a' 'b'", "find all maybe digit \"b\" or letter = x", "replace all @/a+b/ with 'c' value", "find top 1 in 'a' to 'f', \"\\x41\" --c"}).Draw(t, "longone")
+			}
+			src = strings.TrimSpace(strings.Repeat(one+"\n", 4200/len(one)+rapid.IntRange(1, 3).Draw(t, "longrep")))
+		}
+		switch rapid.IntRange(0, 3).Draw(t, "longcut") {
+		case 0:
+			src = src[:rapid.IntRange(len(src)*9/10, len(src)).Draw(t, "longcutat")]
+		case 1:
+			i := rapid.IntRange(len(src)/2, len(src)-1).Draw(t, "longdel")
+			if i < len(src) {
+				src = src[:i] + src[i+1:]
+			}
+		}
+		return src, "long"
 	case "deepnest":
 		// nesting 8..48 levels deep: cost must stay linear in the depth
 		d := rapid.IntRange(8, 48).Draw(t, "nestdepth")
@@ -383,7 +442,7 @@ var unicodeOddities = []string{"\u0663", "\u0664", "\uff14", "\u096a", "\u00e9",
 func TestC08Generated(t *testing.T) {
 	seedNote(t)
 	StartWatchdog("C08", 60*time.Second)
-	st := NewStats("C08", "generated", "generated inputs: valid programs of the full generator (all constructs, transforms, predicates, regex, layouts), their byte prefixes, one-token deletions / duplications / swaps / replacements, token soup over the whole vocabulary, random bytes, regex literals over a regex-flavoured alphabet and prefixes of valid regexes; same oracle; non-trivial = got past the lexer; distinct by input bytes")
+	st := NewStats("C08", "generated", "generated inputs: valid programs of the full generator (all constructs, transforms, predicates, regex, layouts), their byte prefixes, one-token deletions / duplications / swaps / replacements, token soup over the whole vocabulary, random bytes, regex literals over a regex-flavoured alphabet and prefixes of valid regexes, non-ASCII look-alike substitutions, nesting 8..48 deep, sources of 4..9 kB (long separators, many commands); same oracle, and a second Compile of the same text must give the same verdict; non-trivial = got past the lexer; distinct by input bytes")
 	defer st.Write()
 	rapid.Check(t, func(rt *rapid.T) {
 		src, origin := genC08Input(rt)
